@@ -264,6 +264,10 @@ pub fn check_c09(tree: &CN, compact: bool, multiline: bool, stats: &mut Stats) {
         }
     };
     stats.cnt("dumps", 1);
+    if !crate::events::terminates(&text) {
+        stats.cnt("skipped_parse_does_not_terminate", 1);
+        return;
+    }
     let loaded = catch(|| Yaml::load_from_str(&text).map(|d| d.iter().map(cn_yaml).collect::<Vec<_>>()).map_err(|e| e.to_string()));
     let docs = match loaded {
         Ok(Ok(d)) => d,
@@ -638,6 +642,10 @@ pub fn json_text(v: &JV, style: JStyle, level: usize, r: &mut Rng, out: &mut Str
 }
 
 pub fn check_c13(text: &str, want: &CN, what: &str, stats: &mut Stats) {
+    if !crate::events::terminates(text) {
+        stats.cnt("skipped_parse_does_not_terminate", 1);
+        return;
+    }
     let case = || J::obj(vec![("input", J::s(text)), ("expected", cn_json(want))]);
     let r = catch(|| Yaml::load_from_str(text).map(|d| d.iter().map(cn_yaml).collect::<Vec<_>>()).map_err(|e| e.to_string()));
     match r {
